@@ -1,11 +1,13 @@
 (* DenseEval.v — implementation layer of dense-time offline evaluation, untimed fragment:
    the visitors of rtamt/semantics/stl/dense_time/offline/ast_visitor.py for variables,
    constants, point-wise arithmetic and Boolean operators (through the 13-case merge),
-   predicates, and the unbounded once / historically / eventually / always loops.
+   predicates, the unbounded once / historically / eventually / always loops, and the
+   unbounded since / until (since_operation / until_operation: the operands merged into
+   pairs, then the segment-wise recursion result_i = max(min(o1,o2), min(o1, result_{i-1}))).
    A signal is represented by its finite samples; the sample at +inf that a constant
    carries ([[0,c],[inf,c]]) is the implicit extension of DenseMerge.extend. *)
 From Coq Require Import List Bool Arith ZArith Lia.
-From RV Require Import Val Syntax Rho Online Dense DenseMerge.
+From RV Require Import Val Syntax Rho Online Dense DenseMerge DenseMergeG.
 Import ListNotations.
 Local Open Scope Z_scope.
 
@@ -53,6 +55,35 @@ Fixpoint rev_fold (op : V -> V -> V) (unit : V) (s : dsig) : V * dsig :=
 Definition ev_op (s : dsig) : dsig := snd (rev_fold vmax bot s).
 Definition alw_op (s : dsig) : dsig := snd (rev_fold vmin top s).
 
+(* since_operation / until_operation: the operands are merged into pairs (intersect.split through the
+   same 13-case merge, DenseMergeG.isect_g), then
+       result_i = max(min(o1_i, o2_i), min(o1_i, result_{i-1}))     (until: from the last segment backwards) *)
+Definition pairs := list (Z * (V * V)).
+Definition peq (x y : V * V) : bool := veq (fst x) (fst y) && veq (snd x) (snd y).
+Definition split_isect (s1 s2 : dsig) : option pairs := isect_g (V * V) peq (fun a b => (a, b)) s1 s2.
+
+Definition step_val (o : V * V) (prev : V) : V := vmax (vmin (fst o) (snd o)) (vmin (fst o) prev).
+
+Fixpoint since_scan (prev : V) (io : pairs) : dsig :=
+  match io with
+  | [] => []
+  | (t, o) :: r => let res := step_val o prev in (t, res) :: since_scan res r
+  end.
+Definition since_op (s1 s2 : dsig) : option dsig := option_map (fun io => dedup (since_scan bot io)) (split_isect s1 s2).
+
+Fixpoint until_rev (io : pairs) : V * dsig :=
+  match io with
+  | [] => (bot, [])
+  | (t, o) :: r =>
+      let '(nxt, out) := until_rev r in
+      let a := step_val o nxt in
+      (a, match out with
+          | (t', v') :: out' => if veq a v' && (1 <? Z.of_nat (length r)) then (t, a) :: out' else (t, a) :: out
+          | [] => [(t, a)]
+          end)
+  end.
+Definition until_op (s1 s2 : dsig) : option dsig := option_map (fun io => snd (until_rev io)) (split_isect s1 s2).
+
 (* visitPredicate: the difference through the merge, then the robustness of the comparison, deduplicated *)
 Definition pred_of_diff (c : cmp) (d : V) : V :=
   match c with
@@ -83,6 +114,8 @@ Fixpoint deval (p : formula) (W : list dsig) {struct p} : option dsig :=
   | Hist f => option_map hist_op (deval f W)
   | Ev f => option_map ev_op (deval f W)
   | Alw f => option_map alw_op (deval f W)
+  | Since f g => obind (deval f W) (fun x => obind (deval g W) (fun y => since_op x y))
+  | Until f g => obind (deval f W) (fun x => obind (deval g W) (fun y => until_op x y))
   | _ => None
   end.
 
